@@ -260,6 +260,56 @@ def oracle_A(case):
     return fails, tr
 
 
+def oracle_A3(seed, max_n=30):
+    """the user's sample arrays feed MORE than one chain (another parameter order, a subset, a second analysis): every
+    chain built from them maps ITS samples — the user's — to the unit cube and back, and stores the ranges of those
+    samples; the user's arrays are what they were"""
+    import random
+    rng = random.Random(seed)
+    Chain = _chain_mod().Chain
+    fails = []
+    npar = rng.randint(2, 4)
+    names = rng.sample(NAMES_POOL, npar)
+    n = rng.choice([3, 4, rng.randint(3, max_n)])
+    cols = {k: [float(x) for x in draw_column(rng, n)] for k in names}
+    user = {k: np.array(v, dtype=float) for k, v in cols.items()}        # float64 arrays, kept by the user
+    before = {k: v.tobytes() for k, v in user.items()}
+    with warnings.catch_warnings():
+        warnings.simplefilter("ignore")
+        # (each chain gets its own dictionary — Chain keeps the dictionary it is given as its state — holding the SAME arrays)
+        c1 = Chain("kw", "probe", dict(user), np.ones(n), "FLCDM", rescale=True)
+        if rng.random() < 0.5:
+            c1.rescale_from_unity()
+            c1.rescale_to_unity()
+        order2 = list(names)
+        rng.shuffle(order2)
+        if len(order2) > 2 and rng.random() < 0.4:
+            order2 = order2[:-1]
+        c2 = Chain("kw", "probe", {k: user[k] for k in order2}, np.ones(n), "FLCDM", rescale=True)
+        for k in order2:
+            u, mx, mn = unit_of(cols[k])
+            g = [float(x) for x in np.asarray(c2.params[k], dtype=float)]
+            d = c2.rescale_dic[k]
+            if not (close(float(d[0]), mx, 1e-12) and close(float(d[1]), mn, 1e-12)):
+                fails.append(("Chain:second-chain-range", "a second chain built from the user's arrays stores the range [%r, %r] for %s; "
+                              "the user's samples span [%r, %r]" % (float(d[1]), float(d[0]), k, mn, mx)))
+                return fails
+            if not close_list(g, u, 1e-8):
+                fails.append(("Chain:second-chain-unit", "a second chain built from the user's arrays is not the unit-cube image of the user's samples (%s)" % k))
+                return fails
+        c2.rescale_from_unity()
+        for k in order2:
+            g = [float(x) for x in np.asarray(c2.params[k], dtype=float)]
+            if not close_list(g, cols[k], 1e-9):
+                fails.append(("Chain:second-chain-roundtrip", "rescaling the second chain back does not restore the user's samples (%s)" % k))
+                return fails
+    for k, b in before.items():
+        if user[k].tobytes() != b:
+            fails.append(("Chain:user-arrays-modified", "the sample array of %s handed to Chain(...) was modified" % k))
+            break
+    return fails
+
+
 def oracle_A2(rng, max_n):
     """histories with a change of units between two rescalings: rescale -> back -> re-express columns
     (affine maps, as when H0 is turned into h or a percentage into a fraction) -> rescale again.
@@ -923,6 +973,17 @@ def run(ctx, res):
         res.evaluations += 1
         res.count("A2.unit-change-histories")
         report("A2", fails, {"a2": True})
+    # ---- A3: the user's arrays feed two chains (oracle only)
+    for _ in range(ctx.n(60, 600)):
+        sd = rng.randrange(2 ** 30)
+        try:
+            fails = oracle_A3(sd)
+        except Exception as e:  # noqa
+            res.notes.append("A3 could not run: %r" % (e,))
+            continue
+        res.evaluations += 1
+        res.count("A3.two-chains-from-the-same-arrays")
+        report("A3", fails, {"a3": True, "seed": sd})
     # ---- B
     for _ in range(ctx.n(200, 3000)):
         c = gen_B(rng)
@@ -1028,6 +1089,8 @@ def replay(ctx, data):
             fails = oracle_A2(random.Random(sd), 30)
             if fails:
                 break
+    elif s == "A3":
+        fails = oracle_A3(inp["case"]["seed"] if "case" in inp and isinstance(inp["case"], dict) and "seed" in inp["case"] else inp.get("seed", 0))
     elif s == "A":
         fails, _ = oracle_A(decode_A(inp["case"]))
     elif s == "B":
